@@ -36,6 +36,15 @@ checks = {
  "C11": dict(design="4/C11",
    text="Not a schedule exploration. Decided symbolically for all inputs of the bound: (1) footprint - no library code writes to memory that exists before the pipeline starts (package-level variables and everything reachable from them, observed by the engine's static-memory write monitor) during parse (both grammars), print, dump, traverse, resolve; two parses of the same input share no objects; (2) determinism - parsing the same symbolic input twice yields term-identical trees and errors, print/dump of both agree; (3) the SSA of every executed library function is scanned for go/select/channel operations, map iteration and calls into time, rand, os, sync, runtime, unsafe, reflect. Disjoint footprints + the Go memory model give race freedom and schedule independence.",
    note="The step from footprint disjointness to 'all interleavings' is an argument, not a solver query; cmd/php-parser's worker/channel protocol is outside the claim. Bounds on inputs as in the evidence."),
+ "C05": dict(design="4/C05",
+   text="Bounded symbolic execution of parser.Parse over program shapes (the committed corpus of the repository's own test snippets, both grammars) with symbolic trivia in the inter-token gaps; on every error-free path every node's StartPos/EndPos must equal the min start / max end of the significant tokens of its subtree (through the generated slot accessors), lines those of these tokens, children inside parents, siblings ordered and disjoint, with the documented conventions (root without EndTkn, trait adaptations without their ';', token-less nodes unconstrained, -1 only where the last/first child slot is an empty list or itself -1).",
+   note="Program shapes are the corpus, not all programs; trivia per gap as listed in the evidence (one gap at a time). Three test-pinned deviations are known findings (ScalarEncapsedStringVar end, PHP 5 goto label)."),
+ "C08": dict(design="4/C08",
+   text="For every corpus snippet accepted by the baseline parse and every admissible inter-token gap (PHP mode, outside strings/heredocs/inline HTML): the gap is replaced by a symbolic trivia string (white space of every newline style, block, doc, # and // comments with symbolic content) and parsed on the same path as the unmodified snippet; asserted: no error is reported and the trees are equal in kinds, nesting, values and significant tokens (free-floating tokens and positions excluded), byte values compared by SMT.",
+   note="One gap at a time, trivia of at most 3 symbolic bytes plus delimiters; gaps directly after a heredoc label (and after its ';') and the byte after '<?php' are excluded because PHP itself gives them meaning. Lone CR and comments inside the __halt_compiler(); head are known findings (need ragel)."),
+ "C10": dict(design="4/C10",
+   text="Differential: the same symbolic input is parsed under 5.6 and 7.2 on one path; when both report no error and the token stream contains none of the constructs regrouped by PHP 7's uniform variable syntax (variable-variables, static/dynamic member chains, new with a member chain, yield, empty list()), the two trees must be equal including tokens, free-floating tokens and positions (SMT for symbolic bytes). Inputs: every corpus snippet as written and with symbolic trivia in its gaps, plus the short shapes.",
+   note="5.6 vs 7.2 so that the 7.3 heredoc change is not mistaken for a grammar difference. The exclusion list is written down in harness/h_corpus.go (notSharedSyntax) and every path dropped by it is counted under reachability_covers. The PHP 5 goto-label position is a known finding."),
 }
 na = {}
 ALL = ["C%02d" % i for i in range(1, 19)]
